@@ -49,7 +49,7 @@ TReset ==
     /\ act' = [op |-> "Init"]
 
 TSubmit   == Step("Submit")   /\ Submit(Ev.batch)
-TSubmitV  == Step("SubmitV")  /\ SubmitValidated(Ev.batch) /\ \A i \in 1..Len(Ev.batch) : T.valid[Ev.batch[i]] /\ H(Ev.batch[i]) > ReqH
+TSubmitV  == Step("SubmitV")  /\ SubmitValidated(Ev.batch) /\ \A i \in 1..Len(Ev.batch) : Cls(Ev.batch[i]) = "ok" /\ H(Ev.batch[i]) > ReqH
 TRevert   == Step("Revert")   /\ mem = Ev.b /\ RevertStep
 TApply    == Step("Apply")    /\ ApplyStep /\ mem' = Ev.b
 TMidFlush == Step("MidFlush") /\ MidFlush
